@@ -76,6 +76,7 @@ type pathLite struct {
 	Steps      int                `json:"s"`
 	Unknown    int                `json:"u,omitempty"`
 	Fast       int                `json:"f,omitempty"`
+	Sampled    bool               `json:"smp,omitempty"`
 }
 
 type workerResp struct {
@@ -256,7 +257,7 @@ func worker() {
 			pl := pathLite{Outcome: res.Outcome, Msg: res.Msg, Violations: res.Violations, Reached: res.Reached,
 				Covers: res.Covers, Decisions: res.Decisions, Steps: res.Steps, Unknown: res.Unknown, Fast: res.Fast}
 			if n < 2 {
-				pl.Obs, pl.Vector, pl.Inputs = res.Obs, res.Vector, res.Inputs
+				pl.Obs, pl.Vector, pl.Inputs, pl.Sampled = res.Obs, res.Vector, res.Inputs, true
 			}
 			resp.Paths = append(resp.Paths, pl)
 			stack = append(stack, res.Children...)
@@ -463,7 +464,7 @@ loop:
 					for _, id := range p.Covers {
 						res.Covers[id]++
 					}
-					if p.Vector != nil && len(res.Samples) < *flagSamples && p.Outcome != "infeasible" {
+					if p.Sampled && len(res.Samples) < *flagSamples && p.Outcome != "infeasible" {
 						res.Samples = append(res.Samples, sample{Inputs: p.Inputs, Vector: p.Vector, Obs: p.Obs, Out: p.Outcome})
 					}
 				}
